@@ -107,6 +107,31 @@ def check(ctx):
                         ctx.holds('R10-bytecode-path', fi, st, 'derived from the cache module\'s own path', line, clause='P')
                     else:
                         ctx.violation('R10-bytecode-path', fi, st, 'the file removed as "the stale bytecode" is not derived from the cache module path (a bare name in the working directory): the stale .pyc next to the module survives and is trusted by the reload', line, clause='P')
+    # (E') nothing but the import block, the cookie line and the two drivers is written at module
+    # level: the module object is shared by every same-named class through sys.modules
+    seen_ops = set()
+    _TEMPLATES[:] = repo.templates()
+    for p in model.paths:
+        evs = model.events(p)
+        for ev in evs:
+            if ev['ev'] not in ('write', 'exec'):
+                continue
+            if ev['ev'] == 'exec':
+                code = ev['code']
+                src = code.args[0] if isinstance(code, ast.Call) and call_name(code) == 'compile' and code.args else code
+            else:
+                src = ev['arg']
+            for op in concat_operands(src):
+                k = canon(op)
+                if k in seen_ops:
+                    continue
+                seen_ops.add(k)
+                kind = module_level_kind(op)
+                st = 'module text operand %s' % short_op(op)
+                if kind is None:
+                    ctx.violation('R10-generated-code-closed', fi, st, 'extra module-level code is written into the generated module: objects defined there live in the one module namespace that every same-named class shares (sys.modules), so a later definition silently replaces them under earlier classes', ev['eff'].lineno, clause='E')
+                else:
+                    ctx.holds('R10-generated-code-closed', fi, st, kind, ev['eff'].lineno, clause='E')
     ctx.unit('text_operands', nw)
     # (H) the hash has inputs at all and they are the generated codes
     any_hash = False
@@ -123,6 +148,38 @@ def check(ctx):
     ctx.floor('text operands of the cache module', nw, 3)
     ctx.floor('install provenances', r['installs'], 2)
     ctx.trust(*ASSUMPTIONS)
+
+
+_TEMPLATES = []
+
+
+def module_level_kind(op):
+    """what a piece of the generated module text is, or None when it is something else"""
+    if isinstance(op, ast.Constant) and isinstance(op.value, str):
+        v = op.value.strip()
+        if not v:
+            return 'empty'
+        try:
+            t = ast.parse(__import__('textwrap').dedent(op.value))
+        except SyntaxError:
+            return None
+        if all(isinstance(s, (ast.Import, ast.ImportFrom)) for s in t.body):
+            return 'import block'
+        return None
+    if isinstance(op, ast.JoinedStr):
+        return 'cookie line'
+    if isinstance(op, ast.BinOp) and isinstance(op.op, ast.Mod) and isinstance(op.left, ast.Constant) and isinstance(op.left.value, str):
+        txt = op.left.value
+        if 'def ' not in txt and 'COOKIE' in txt:
+            return 'cookie line'
+        for t in _TEMPLATES:
+            if t.text == txt and t.tree is not None:
+                defs = [s_ for s_ in t.tree.body if isinstance(s_, ast.FunctionDef)]
+                other = [s_ for s_ in t.tree.body if not isinstance(s_, (ast.FunctionDef, ast.Import, ast.ImportFrom))]
+                if defs and not other and all(d.name in ('pack_impl', 'unpack_impl') for d in defs):
+                    return 'driver %s' % ', '.join(d.name for d in defs)
+        return None
+    return None
 
 
 def path_origin(pth):
